@@ -326,6 +326,12 @@ class IntermediateStates:
                 s.name for s in generic_indices_from_space(block[0])
             )
             idx.insert(-1, new_idx)
+        # lifting the index restrictions of the sums over the additional
+        # indices in the products S*S*... leads to a prefactor for each sum
+        n_ov = n_ov_from_space(block[0])
+        prefactor = Rational(
+            1, factorial(n_ov["occ"]) * factorial(n_ov["virt"])
+        )
         # iterate over exponents and terms, starting with the lowest exponent
         res = sympify(0)
         for pref, termlist in taylor_expansion:
@@ -333,7 +339,7 @@ class IntermediateStates:
             # all originate from x*x or x^3 etc.
             for term in termlist:
                 relevant_idx = idx[:len(term)] + [idx[-1]]
-                i1 = pref
+                i1 = pref * prefactor ** (len(term) - 1)
                 for o in term:
                     i1 *= self.overlap_precursor(
                         order=o, block=block, indices=tuple(relevant_idx[:2])
